@@ -77,7 +77,9 @@ def wfWith (forms : List Nat) (m : Msg) : Bool :=
   m.armorHeaders.all (fun l => plainLine l && hasColonSpace l) &&
   !m.b64.isEmpty && m.b64.all (fun l => isBodyLine l) &&
   m.crc.length == 4 && m.crc.all isB64 &&
-  m.text == render m
+  -- the text is the rendering, possibly preceded by blank lines and followed by white space
+  (let pre := m.text.takeWhile isSpace; pre.isEmpty || pre.getLast? == some '\n') &&
+  strip m.text == strip (render m)
 
 /-- exactly the signed body (for CRLF input the final carriage return remains) -/
 def expected (m : Msg) : Str := joinWith (nl m) m.body ++ (if m.crlf then ['\r'] else [])
